@@ -104,7 +104,7 @@ def view_result(I, view, name):
 
 def filters(chk, P, stats):
     cls = P.cls(FCP, "FilteredConfigParser")
-    site = cls.lookup("_check_tuple").site()
+    site = cls.site_of("_check_tuple")
     for exclude in (False, True):
         for S in subsets():
             I = F.make_interp(P)
@@ -235,42 +235,43 @@ def isolation(chk, P):
            expect="only _self_-prefixed attributes are assigned on an ObjectProxy", key="C13.O4|proxy-stores")
 
 
-def Args(P, inc, exc):
+def cli(chk, P):
+    entry = W.console_entry(P)
+
     def v(x):
         return NONE if x is None else ListV([Const(s) for s in x], "list")
-    given = {"include_species": v(inc), "exclude_species": v(exc), "config_file": W.param("config_file"), "out_filename": Const("out")}
-    return W.ArgsModel(W.cli_defaults(P), given)
-
-
-def cli(chk, P):
-    fi = P.func(POTABLE, "_do_tabulation")
-    mk = P.func(POTABLE, "_make_config_parser")
     for inc, exc in ((["A"], None), ([], None), (None, ["A"]), (None, []), (None, None)):
-        I = F.make_interp(P)
         seen = {}
 
-        def cp_init(i, fv, a, k, n):
-            return NONE
-
         def fcp_init(i, fv, a, k, n, seen=seen):
-            seen["filter"] = dict(k)
+            names = [x for x in fv.fi.params() if x != "self"]
+            pos = [x for x in a if not (hasattr(x, "ci") and x.ci is fv.fi.cls)] if len(a) > len(names) else list(a)
+            bound = dict(zip(names, pos))
+            bound.update(k)
+            bound.pop(names[0], None)          # the wrapped parser
+            seen["filter"] = bound
             return NONE
-        I.hooks[CP + ":ConfigParser.__init__"] = cp_init
-        I.hooks[FCP + ":FilteredConfigParser.__init__"] = fcp_init
-        I.hooks["atsim.potentials.tools.potable._actions:action_tabulate"] = lambda i, fv, a, k, n: NONE
-        I.x_sys_exit = lambda args, kwargs, node, env: NONE
-        I.run(fi, [W.param("p"), PyObjV(Args(P, inc, exc))])
+        r = W.run_potable(P, {"include_species": v(inc), "exclude_species": v(exc), "config_file": W.param("config_file"),
+                              "out_filename": Const("out")},
+                          hooks={CP + ":ConfigParser.__init__": lambda i, fv, a, k, n: NONE,
+                                 FCP + ":FilteredConfigParser.__init__": fcp_init,
+                                 "atsim.potentials.tools.potable._actions:action_tabulate": lambda i, fv, a, k, n: NONE})
         desc = "--include-species %s" % inc if inc is not None else ("--exclude-species %s" % exc if exc is not None else "no filter option")
-        if inc is None and exc is None:
+        if r.raised is not None or r.parser.errors:
+            ok = False
+            seen["filter"] = "fails: %r %r" % (r.raised, r.parser.errors)
+            want = "a tabulation"
+        elif inc is None and exc is None:
             ok = "filter" not in seen
             want = "no FilteredConfigParser"
         else:
             kw = seen.get("filter")
             name = "include" if inc is not None else "exclude"
             vals = inc if inc is not None else exc
-            ok = kw is not None and set(kw) == {name} and isinstance(kw[name], ListV) and [x.v for x in kw[name].items] == vals
+            ok = kw is not None and set(kw) == {name} and isinstance(kw[name], ListV) \
+                and [x.v for x in kw[name].items] == vals
             want = "FilteredConfigParser(cp, %s=%s)" % (name, vals)
-        chk.ob("C13.O5", "%s -> %s" % (desc, want), ok, site=fi.site(), found=seen.get("filter", "parser not wrapped"), expect=want,
+        chk.ob("C13.O5", "%s -> %s" % (desc, want), ok, site=entry.site(), found=seen.get("filter", "parser not wrapped"), expect=want,
                key="C13.O5|%s" % desc)
     # FilteredConfigParser itself distinguishes an absent list from an empty one
     cls = P.cls(FCP, "FilteredConfigParser")
